@@ -54,6 +54,7 @@ Remove1(s, x) ==
 MC0 == [live |-> FALSE, st |-> "none", path |-> <<>>, pur |-> "", bf |-> 0, streams |-> <<>>,
         ls |-> <<>>,              \* listeners of this Circuit object (TorState itself is implicit)
         built |-> "p",            \* _when_built: "p" | "ok" | "err"
+        ph |-> FALSE,             \* the status is the placeholder written by an EXTENDCIRCUIT reply (until the next event)
         closing |-> FALSE,        \* _closing_deferred is set
         closeWaits |-> <<>>]      \* wait ids chained on _closing_deferred
 MS0 == [live |-> FALSE, st |-> "none", circ |-> 0, tgt |-> "", taddr |-> "", src |-> "", ls |-> <<>>,
@@ -107,7 +108,7 @@ OnCirc(mm0, ev) ==
       oldlen == Len(obj0.path)
       terminal == ev.st \in {"CLOSED", "FAILED"}
       newpath == IF ev.st = "LAUNCHED" THEN <<>> ELSE IF terminal THEN obj0.path ELSE ev.path
-      mm3   == [mm2 EXCEPT !.c[id].st = ev.st, !.c[id].pur = ev.pur, !.c[id].bf = ev.bf, !.c[id].path = newpath]
+      mm3   == [mm2 EXCEPT !.c[id].st = ev.st, !.c[id].pur = ev.pur, !.c[id].bf = ev.bf, !.c[id].path = newpath, !.c[id].ph = FALSE]
       mm4   == IF ev.st = "LAUNCHED" THEN Note(mm3, ls, "launched", id, "")
                ELSE IF terminal THEN mm3
                ELSE ExtendNotes(mm3, ls, id, newpath, oldlen + 1)
@@ -174,8 +175,13 @@ Deliver(kind, ev) ==
 
 TorStep == IF phase = "pre" THEN cnt' = [cnt EXCEPT !.pre = @ + 1] ELSE cnt' = [cnt EXCEPT !.ev = @ + 1]
 
+\* a circuit we asked for with build_circuit exists in Tor ("NEWBORN") before Tor announces it
+Newborn(c) == tc[c].st = "NEWBORN"
+PendingBuild(c) == \E i \in 1..Len(m.pendAck) : m.pendAck[i][1] = "B" /\ m.pendAck[i][2] = c     \* its EXTENDCIRCUIT is unanswered
 Launch(c, pur, bf) ==
-  /\ ~LiveC(c) /\ ~Referenced(c) /\ pur \in Purposes /\ bf \in 1..2
+  /\ pur \in Purposes /\ bf \in 1..2
+  /\ \/ ~LiveC(c) /\ ~Referenced(c)
+     \/ Newborn(c) /\ pur = tc[c].pur /\ bf = tc[c].bf       \* the announcement of a circuit created at our request
   /\ \A i \in 1..Len(m.pendAck) : ~(m.pendAck[i][1] = "C" /\ m.pendAck[i][2] = c)   \* id not re-used while its close is unacknowledged
   /\ tc' = [tc EXCEPT ![c] = [st |-> "LAUNCHED", path |-> <<>>, pur |-> pur, bf |-> bf]]
   /\ Deliver("C", [id |-> c, st |-> "LAUNCHED", path |-> <<>>, pur |-> pur, bf |-> bf])
@@ -184,6 +190,7 @@ Launch(c, pur, bf) ==
 \* a hop is added.  Tor also extends circuits that are already BUILT (it cannibalises a built general
 \* circuit, e.g. for an onion-service rendezvous: one more hop, possibly a new purpose, then BUILT again)
 Extend(c, r, pur) ==
+  /\ ~PendingBuild(c)
   /\ tc[c].st \in {"LAUNCHED", "EXTENDED", "BUILT"} /\ Len(tc[c].path) < MaxPath /\ r \in Relays
   /\ pur \in Purposes /\ (tc[c].st # "BUILT" => pur = tc[c].pur)
   /\ tc' = [tc EXCEPT ![c].st = "EXTENDED", ![c].path = Append(@, r), ![c].pur = pur]
@@ -191,7 +198,7 @@ Extend(c, r, pur) ==
   /\ TorStep /\ UNCHANGED <<phase, ts>>
 
 Built(c) ==
-  /\ tc[c].st = "EXTENDED"
+  /\ tc[c].st = "EXTENDED" /\ ~PendingBuild(c)
   /\ tc' = [tc EXCEPT ![c].st = "BUILT"]
   /\ Deliver("C", [id |-> c, st |-> "BUILT", path |-> tc[c].path, pur |-> tc[c].pur, bf |-> tc[c].bf])
   /\ TorStep /\ UNCHANGED <<phase, ts>>
@@ -199,7 +206,7 @@ Built(c) ==
 \* a circuit goes away (CLOSED if it was built, FAILED otherwise); streams on it stay "on" it
 \* until Tor says otherwise
 CircGone(c) ==
-  /\ LiveC(c)
+  /\ LiveC(c) /\ ~Newborn(c) /\ ~PendingBuild(c)
   /\ tc' = [tc EXCEPT ![c] = NoC]
   /\ Deliver("C", [id |-> c, st |-> IF tc[c].st = "BUILT" THEN "CLOSED" ELSE "FAILED", path |-> tc[c].path,
                    pur |-> tc[c].pur, bf |-> tc[c].bf])
@@ -302,6 +309,30 @@ WaitClosed(x, c) ==
           IF ~mm.c[c].live THEN FireW(mm, x, "ok") ELSE mm
   /\ UserStep /\ UNCHANGED <<phase, tc, ts>>
 
+\* TorState.build_circuit(): EXTENDCIRCUIT 0 is written; Tor creates circuit c ("NEWBORN": it exists, nothing
+\* has been announced).  Tor answers "EXTENDED c" (Ack) and announces the circuit (Launch) - replies are
+\* flushed before events, but both orders are explored.  Whichever comes first creates the Circuit object.
+Build(x, c, pur, bf) ==
+  /\ phase = "live" /\ m.w[x].k = "none" /\ m.pendAck = <<>>     \* (nothing in flight: the command is written at once)
+  /\ ~LiveC(c) /\ ~Referenced(c) /\ ~m.c[c].live /\ pur \in Purposes /\ bf \in 1..2
+  /\ tc' = [tc EXCEPT ![c] = [st |-> "NEWBORN", path |-> <<>>, pur |-> pur, bf |-> bf]]
+  /\ m' = [Reset(m) EXCEPT !.wrote = << <<"EXTENDCIRCUIT", 0>> >>, !.pendAck = << <<"B", c, x>> >>,
+                           !.w[x] = [k |-> "build", out |-> "p", n |-> 0, id |-> c]]
+  /\ UserStep /\ UNCHANGED <<phase, ts>>
+
+\* the "EXTENDED c" reply: _find_circuit_after_extend finds or creates the Circuit object and marks it EXTENDED
+\* (a placeholder: the reply says nothing about the status)
+BuildReply(mm, c, x) ==
+  LET isnew == ~mm.c[c].live
+      w1  == IF isnew THEN [y \in Waits |-> IF mm.w[y].k \in {"built", "closed", "closec"} /\ mm.w[y].id = c
+                                             THEN [mm.w[y] EXCEPT !.id = 0] ELSE mm.w[y]]
+             ELSE mm.w
+      obj == IF isnew THEN [MC0 EXCEPT !.ls = mm.cl, !.live = TRUE, !.st = "EXTENDED", !.ph = TRUE]
+             ELSE [mm.c[c] EXCEPT !.st = "EXTENDED", !.ph = TRUE]
+      m1  == [mm EXCEPT !.c[c] = obj, !.w = w1]
+      m2  == IF isnew THEN Note(m1, mm.cl, "new", c, "") ELSE m1
+  IN FireW(m2, x, "ok")
+
 \* circuit.close(): completes only when Tor reports the circuit gone
 CloseC(x, c) ==
   /\ phase = "live" /\ Known(c) /\ m.w[x].k = "none" /\ m.c[c].st # "FAILED"
@@ -331,7 +362,8 @@ Ack ==
                 THEN << <<IF m.pendAck[2][1] = "C" THEN "CLOSECIRCUIT" ELSE "CLOSESTREAM", m.pendAck[2][2]>> >>
                 ELSE <<>>
          mm == [Reset(m) EXCEPT !.pendAck = Tail(@), !.wrote = nxt]
-     IN m' = IF a[1] = "C"
+     IN m' = IF a[1] = "B" THEN BuildReply(mm, a[2], a[3])
+             ELSE IF a[1] = "C"
              THEN \* close_command_is_queued returns _closing_deferred: chain if still set, else done
                   IF mm.c[a[2]].closing THEN [mm EXCEPT !.c[a[2]].closeWaits = Append(@, a[3])]
                   ELSE FireW(mm, a[3], "ok")
@@ -359,6 +391,7 @@ UserNext ==
   \/ \E l \in Listeners, s \in StreamIds : UnlistenS(l, s)
   \/ \E x \in Waits, c \in CircIds : WaitBuilt(x, c) \/ WaitClosed(x, c) \/ CloseC(x, c)
   \/ \E x \in Waits, s \in StreamIds : CloseS(x, s)
+  \/ \E x \in Waits, c \in CircIds, p \in Purposes, bf \in 1..2 : Build(x, c, p, bf)
 
 Next ==
   \/ TorNext /\ (IF phase = "pre" THEN cnt.pre < MaxPre ELSE cnt.ev < MaxEv)
@@ -373,8 +406,11 @@ Spec == Init /\ [][Next]_vars
 Live == phase = "live"
 CircuitsMatch ==
   Live => \A c \in CircIds :
-     /\ m.c[c].live <=> LiveC(c)
-     /\ LiveC(c) => m.c[c].st = tc[c].st /\ m.c[c].path = tc[c].path /\ m.c[c].pur = tc[c].pur /\ m.c[c].bf = tc[c].bf
+     /\ ~Newborn(c) => (m.c[c].live <=> LiveC(c))
+     /\ (LiveC(c) /\ ~Newborn(c)) => /\ (m.c[c].ph \/ m.c[c].st = tc[c].st)
+                                     /\ m.c[c].path = tc[c].path /\ m.c[c].pur = tc[c].pur /\ m.c[c].bf = tc[c].bf
+     \* known from the EXTENDCIRCUIT reply only: listed, nothing else known yet
+     /\ (Newborn(c) /\ m.c[c].live) => m.c[c].path = <<>>
 StreamsMatch ==
   Live => \A s \in StreamIds :
      /\ m.s[s].live <=> LiveS(s)
